@@ -69,7 +69,31 @@ Definition S_events_nested : Prop := forall fl g flt roots known evs cf,
   wf_events (track_of fl) g known evs = true
   /\ c_known cf = rev (pre_nodes evs) ++ known /\ c_onst cf = [].
 
-(** what acceptance by the replay automaton means (soundness of the checker) *)
+(** what an accepted event says, relative to the visit path [st] before it (top first):
+    depth = height of the path, parent/pred = top of the path, root = bottom of the path,
+    the arc travelled is an arc of the graph, a previsited node is not on the path, the
+    on-stack flag of a revisit tells whether the target is on the path *)
+Definition ev_spec (track : bool) (g : graph) (st : list N) (e : event) : Prop :=
+  match e with
+  | EInit r => st = []
+  | EDone r => st = []
+  | EPre v p r d =>
+      d = nlen st /\ ~ In v st /\ v < nlen g
+      /\ match st with [] => p = v /\ r = v | u :: _ => p = u /\ arc g u v /\ r = last st u end
+  | ERev v p r d os =>
+      d = nlen st /\ (os = true <-> track = true /\ In v st)
+      /\ match st with [] => False | u :: _ => p = u /\ arc g u v /\ r = last st u end
+  | EPost v p r d =>
+      match st with
+      | [] => False
+      | u :: st' => v = u /\ d = nlen st' /\ p = hd u st' /\ r = last st u
+      end
+  end.
+
+(** what acceptance by the replay automaton means (soundness of the checker): no node is
+    previsited twice or when already marked, every previsit is matched by a postvisit, the
+    path is empty at the end, and at every event the path is a duplicate-free path of the
+    graph and the event's fields are as [ev_spec] says *)
 Definition S_wf_events_sound : Prop := forall track g seen evs,
   NoDup seen -> wf_events track g seen evs = true ->
   NoDup (pre_nodes evs)
@@ -77,23 +101,7 @@ Definition S_wf_events_sound : Prop := forall track g seen evs,
   /\ Permutation (post_nodes evs) (pre_nodes evs)
   /\ path_after evs = []
   /\ (forall pre e post, evs = pre ++ e :: post ->
-      let st := path_after pre in
-      chain g st /\ NoDup st /\
-      match e with
-      | EInit r => st = []
-      | EDone r => st = []
-      | EPre v p r d =>
-          d = nlen st /\ ~ In v st
-          /\ match st with [] => p = v /\ r = v | u :: _ => p = u /\ arc g u v /\ r = last st u end
-      | ERev v p r d os =>
-          d = nlen st /\ (os = true <-> track = true /\ In v st)
-          /\ match st with [] => False | u :: _ => p = u /\ arc g u v /\ r = last st u end
-      | EPost v p r d =>
-          match st with
-          | [] => False
-          | u :: st' => v = u /\ d = nlen st' /\ p = hd u st' /\ r = last st u
-          end
-      end).
+      let st := path_after pre in chain g st /\ NoDup st /\ ev_spec track g st e).
 
 (** the visit path is a path of tree arcs, and a [Revisit] of [SeqPath] is flagged
     [on_stack] exactly when its target is an ancestor on that path (or the current node
